@@ -213,6 +213,40 @@ impl FromVal for Fz {
         Fz(f64::from_val(v))
     }
 }
+macro_rules! fz_arith {
+    ($tr:ident, $m:ident) => {
+        impl std::ops::$tr for Fz {
+            type Output = Fz;
+            fn $m(self, o: Fz) -> Fz {
+                Fz(std::ops::$tr::$m(self.0, o.0))
+            }
+        }
+    };
+}
+fz_arith!(Add, add);
+fz_arith!(Sub, sub);
+fz_arith!(Mul, mul);
+fz_arith!(Div, div);
+fz_arith!(Rem, rem);
+impl num_traits::Zero for Fz {
+    fn zero() -> Fz {
+        Fz(0.0)
+    }
+    fn is_zero(&self) -> bool {
+        self.0 == 0.0
+    }
+}
+impl num_traits::One for Fz {
+    fn one() -> Fz {
+        Fz(1.0)
+    }
+}
+impl num_traits::Num for Fz {
+    type FromStrRadixErr = ();
+    fn from_str_radix(_s: &str, _r: u32) -> Result<Fz, ()> {
+        Err(())
+    }
+}
 impl Render for Fz {
     fn r(&self) -> String {
         if self.0 == 0.0 && self.0.is_sign_negative() {
